@@ -164,6 +164,7 @@ func qdScenario(cs qdCase) *mc.Scenario {
 			var ws []*qdWaiter
 			var waiting []int // reference queue: ids in arrival order
 			history := []string{}
+			var arriveCancelled func()
 			arrive := func() {
 				w := &qdWaiter{id: len(ws), arrived: vrt.Now()}
 				w.ctx, w.cancel = vctx.WithCancel(waiterCtx(w.id))
@@ -206,6 +207,35 @@ func qdScenario(cs qdCase) *mc.Scenario {
 					} else {
 						waiting = append(waiting, w.id)
 					}
+				}
+			}
+			// a caller whose context is already cancelled when it arrives (eviction on cancel): with free
+			// capacity it may be granted or refused; without, it must be refused at once and leave no
+			// entry behind (the gauge check after the event sees a left-over)
+			arriveCancelled = func() {
+				w := &qdWaiter{id: len(ws), arrived: vrt.Now(), canceled: true}
+				w.ctx, w.cancel = vctx.WithCancel(waiterCtx(w.id))
+				w.cancel()
+				ws = append(ws, w)
+				free := len(heldToks) < curLimit
+				vrt.GoL(fmt.Sprintf("W%d", w.id), func() {
+					l, ok := top.Acquire(w.ctx)
+					w.retClock = vrt.Now()
+					w.granted, w.tok = ok, l
+					w.returned = true
+				})
+				vrt.WaitQuiescent()
+				switch {
+				case !w.returned:
+					fail("C13:cancel-not-honoured", "arrival %d with an already-cancelled context (eviction on) is blocked; history %v", w.id, history)
+					waiting = append(waiting, w.id)
+				case w.granted && !free:
+					fail("C12:granted-over-limit", "arrival %d (cancelled context) was granted while %d tokens are held (limit %d)", w.id, len(heldToks), curLimit)
+					heldToks = append(heldToks, w.tok)
+				case w.granted:
+					heldToks = append(heldToks, w.tok)
+				case w.retClock != w.arrived:
+					fail("C13:cancel-instant", "arrival %d with an already-cancelled context returned at +%d ns", w.id, w.retClock-w.arrived)
 				}
 			}
 			remove := func(id int) {
@@ -318,6 +348,9 @@ func qdScenario(cs qdCase) *mc.Scenario {
 				var menu []ev
 				if len(ws) < cs.maxArrive {
 					menu = append(menu, ev{"A", 0})
+					if cs.evict && !cs.ctor.pool && cs.fixedPool == "" && !strings.Contains(cs.ctor.name, "ifoBlocking") && !strings.Contains(cs.ctor.name, "WithDefaults") {
+						menu = append(menu, ev{"P", 0})
+					}
 				}
 				if len(heldToks) > 0 {
 					menu = append(menu, ev{"R", 0})
@@ -344,6 +377,11 @@ func qdScenario(cs qdCase) *mc.Scenario {
 				history = append(history, fmt.Sprintf("%s%d", e.kind, e.arg))
 				before := snapshot()
 				switch e.kind {
+				case "P":
+					vtime.Sleep(time.Millisecond)
+					vrt.WaitQuiescent()
+					expire()
+					arriveCancelled()
 				case "A":
 					vtime.Sleep(time.Millisecond) // distinct arrival (and hence expiry) instants
 					vrt.WaitQuiescent()
@@ -547,16 +585,18 @@ func orderRaceScenario(ct qCtor, n int) *mc.Scenario {
 // races the head's give-up (cancellation with eviction on, or its backlog timeout on the eager
 // clock). Whatever the interleaving, the released capacity must end with a caller that is still
 // waiting, in the configured order: if the head returned refused, the next in line holds it.
-func giveUpRaceScenario(ct qCtor, n int, byTimeout bool) *mc.Scenario {
+func giveUpRaceScenario(ct qCtor, n int, byTimeout bool, lateArrival ...bool) *mc.Scenario {
+	late := len(lateArrival) > 0 && lateArrival[0]
 	how := "cancel"
 	if byTimeout {
 		how = "timeout"
 	}
 	return &mc.Scenario{
 		Name:   "C11/giveup-race/" + ct.name,
-		Params: fmt.Sprintf("order=%s limit=1 waiters=%d head gives up by %s while the holder releases", ct.order, n, how),
+		Params: fmt.Sprintf("order=%s limit=1 waiters=%d head gives up by %s while the holder releases; another caller arrives afterwards=%v", ct.order, n, how, late),
 		Cfg:    vrt.Config{MaxSteps: 8000, EagerClock: byTimeout, Horizon: int64(10 * time.Second)},
 		Body: func(x *mc.Exec) {
+			n := n // (a newcomer may be added below: per execution)
 			reg := NewRecRegistry()
 			strat := newStrategy("precise", 1, nil)
 			def := newDefaultLimiter(limit.NewFixedLimit("f", 1, nil), strat, 1e6, 1e6, nil)
@@ -630,6 +670,21 @@ func giveUpRaceScenario(ct qCtor, n int, byTimeout bool) *mc.Scenario {
 			}
 			// follow-up: whoever holds the token releases it; each release must serve the next caller in
 			// the configured order among those still waiting (the race must not have damaged the backlog)
+			if late && !byTimeout {
+				// one more caller queues up behind (FIFO) / in front of (LIFO) the survivors
+				granted, returned, toks = append(granted, false), append(returned, false), append(toks, nil)
+				k := n
+				n++
+				vrt.GoL(fmt.Sprintf("W%d", k), func() {
+					l, ok := top.Acquire(waiterCtx(k))
+					toks[k] = l
+					granted[k], returned[k] = ok, true
+					if ok {
+						hold.Recv()
+					}
+				})
+				vrt.WaitQuiescent()
+			}
 			released := make([]bool, n)
 			for round := 0; round < n && !x.Failed() && !byTimeout; round++ {
 				holder := -1
